@@ -252,7 +252,7 @@ def sizes(res):
 
 
 def eq(res):
-    from dali import address
+    from dali import address, frame
     from models import addr_ref as R
     a1 = R.all_gear(address) + R.all_device(address) + R.all_instances(address)
     a2 = R.all_gear(address) + R.all_device(address) + R.all_instances(address)   # separately constructed
@@ -303,6 +303,51 @@ def eq(res):
                 cls(good)
             except Exception as ex:
                 res.violation(f"C04/ctor/legal-rejected/{kind}", f"{kind}({good}) raised {type(ex).__name__}", {"kind": kind, "arg": good})
+    # numbers that are ints without looking like it (True is 1, an IntEnum member, an int subclass): the same address as the int
+    import enum
+
+    class Chan(enum.IntEnum):
+        one = 1
+        three = 3
+
+    class MyInt(int):
+        pass
+    for kind, n in ranges.items():
+        cls = getattr(address, kind)
+        w = 16 if kind.startswith("Gear") else 24
+        for odd, plain in ((True, 1), (False, 0), (Chan.three, 3), (MyInt(2), 2)):
+            res.evaluations += 1
+            res.hit("int_like_numbers")
+            try:
+                a_, b_ = cls(odd), cls(plain)
+            except (ValueError, TypeError):
+                continue                      # refusing them is fine too
+            f1, f2 = frame.ForwardFrame(w, 0x010000 if w == 24 else 0), frame.ForwardFrame(w, 0x010000 if w == 24 else 0)
+            a_.add_to_frame(f1)
+            b_.add_to_frame(f2)
+            if f1 != f2 or not (a_ == b_):
+                res.violation(f"C04/int-like-number/{kind}", f"{kind}({odd!r}) writes {f1.as_integer:#x}, {kind}({plain}) writes {f2.as_integer:#x} "
+                              f"(== gives {a_ == b_})", {"kind": kind, "arg": repr(odd)})
+    # an address object whose number is changed afterwards (its attributes are public): it encodes what it now says it is
+    for kind, attr in (("GearShort", "address"), ("DeviceShort", "address"), ("GearGroup", "group"), ("DeviceGroup", "group")):
+        cls = getattr(address, kind)
+        w = 16 if kind.startswith("Gear") else 24
+        obj = cls(1)
+        if not hasattr(obj, attr):
+            continue
+        res.evaluations += 1
+        res.hit("reassigned_numbers")
+        try:
+            setattr(obj, attr, 5)
+        except Exception:
+            continue                          # read-only attributes are fine too
+        f1, f2 = frame.ForwardFrame(w, 0x010000 if w == 24 else 0), frame.ForwardFrame(w, 0x010000 if w == 24 else 0)
+        obj.add_to_frame(f1)
+        cls(5).add_to_frame(f2)
+        back = address.from_frame(f1)
+        if f1 != f2 or not (back == obj) or not (obj == cls(5)):
+            res.violation(f"C04/reassigned-number/{kind}", f"{kind}(1) with .{attr} set to 5 prints as {obj} and writes {f1.as_integer:#x}; "
+                          f"{kind}(5) writes {f2.as_integer:#x}; read back == object: {back == obj}", {"kind": kind})
     res.sample({"eq_pairs": len(a1) * len(a2), "example": [list(d1[0]), list(d1[70])]})
 
 
